@@ -42,13 +42,27 @@ class InitMethod(MethodDescriptor):
 
     @staticmethod
     def init(spec_cls, self, **kwargs):
+        if self.__spec_class__.owner is not spec_cls:
+            # Invoked as a parent constructor.
+            return InitMethod._init(spec_cls, self, **kwargs)
+
+        # While being initialised, instances may be written to even if frozen.
+        self.__setattr__(
+            "__spec_class_initializing__", True, force=True, skip_invalidation=True
+        )
+        try:
+            return InitMethod._init(spec_cls, self, **kwargs)
+        finally:
+            # (Also if initialisation failed: an instance that escaped from the
+            # constructor must not stay writable.)
+            self.__dict__.pop("__spec_class_initializing__", None)
+
+    @staticmethod
+    def _init(spec_cls, self, **kwargs):
         instance_metadata = self.__spec_class__
 
         # Initialise any non-local spec attributes via parent constructors
         if instance_metadata.owner is spec_cls:
-            self.__setattr__(
-                "__spec_class_initializing__", True, force=True, skip_invalidation=True
-            )
             for parent in reversed(spec_cls.mro()[1:]):
                 # Only classes that are themselves spec-classes have a
                 # constructor to delegate to (a plain intermediate class merely
@@ -146,10 +160,6 @@ class InitMethod(MethodDescriptor):
             )
             if post_init:
                 post_init(self)
-
-            self.__delattr__(
-                "__spec_class_initializing__", force=True, skip_invalidation=True
-            )
 
     def build_method(self) -> Callable:
         spec_class_key = self.spec_cls.__spec_class__.key
@@ -502,6 +512,8 @@ class DeepCopyMethod(MethodDescriptor):
             return self
         new = self.__class__.__new__(self.__class__)
         for attr, value in self.__dict__.items():
+            if attr == "__spec_class_initializing__":
+                continue  # A copy taken during initialisation is a finished instance.
             if inspect.ismethod(value) and value.__self__ is self:
                 continue
             attr_spec = self.__spec_class__.attrs.get(attr)
